@@ -331,31 +331,66 @@ func runC14Delim(c *Ctx) {
 		arr.Elems = append(arr.Elems, &Cell{ID: 901 + i, V: Sym{K: fmt.Sprintf("val%d", i)}})
 	}
 	kvDelims, msgDelims := map[string]bool{}, map[string]bool{}
+	ownDelims := map[string]bool{}
 	for _, t := range in.Explore(gen, []AVal{Sym{K: "key"}, Slc{Arr: arr, Lo: 0, Hi: 2}}, 500) {
 		if t.Cut != "" || t.Panic != "" || t.Converged {
 			continue
 		}
-		sawKey := false
+		// the text written, as a flat sequence of parts (constants and the symbolic key / values)
+		var seq []AVal
 		for _, e := range t.Events {
 			if e.Kind != "write" {
 				continue
 			}
-			k := keyOf(e.Args[1])
+			if sc, ok := e.Args[1].(StrCat); ok {
+				seq = append(seq, sc.Parts...)
+			} else {
+				seq = append(seq, e.Args[1])
+			}
+		}
+		constText := func(v AVal) (string, bool) {
+			if i, ok := isCstInt(v); ok {
+				return string(rune(i)), true
+			}
+			return isCstStr(v)
+		}
+		for i, part := range seq {
+			k := keyOf(part)
 			switch {
-			case k == "key":
-				sawKey = true
-			case sawKey && !strings.Contains(k, "val"):
-				// a constant written between key and value
-				if i, ok := isCstInt(e.Args[1]); ok {
-					kvDelims[string(rune(i))] = true
-				} else if s, ok := isCstStr(e.Args[1]); ok {
-					kvDelims[s] = true
-				}
-			case strings.Contains(k, "val1"):
-				if sc, ok := e.Args[1].(StrCat); ok {
-					if s, ok := isCstStr(sc.Parts[0]); ok {
-						msgDelims[s] = true
+			case k == "key" && i+1 < len(seq):
+				// what follows the key: the key/value delimiter is the first character written after it
+				// (brackets or quotes wrapped around the value are part of the value for the parser)
+				// not when there is no value, and not when the value brings its own delimiter (the builder
+				// tests the value's first character against it and then writes none)
+				hasVal := false
+				for _, q := range seq {
+					if strings.Contains(keyOf(q), "val0") {
+						hasVal = true
 					}
+				}
+				if !hasVal {
+					continue
+				}
+				own := ""
+				for _, a := range t.Order { // the first test of the value's first character decides
+					if strings.HasPrefix(a, "eq(") && strings.HasSuffix(a, ",val0[0])") {
+						var n int
+						if _, err := fmt.Sscanf(a, "eq(%d,", &n); err == nil && t.PC[a] == 1 {
+							own = string(rune(n))
+						}
+						break
+					}
+				}
+				if own != "" {
+					ownDelims[own] = true
+					continue
+				}
+				if s, ok := constText(seq[i+1]); ok && s != "" {
+					kvDelims[s[:1]] = true
+				}
+			case strings.Contains(k, "val1") && i > 0:
+				if s, ok := constText(seq[i-1]); ok && s != "" {
+					msgDelims[s[len(s)-1:]] = true
 				}
 			}
 		}
@@ -381,6 +416,11 @@ func runC14Delim(c *Ctx) {
 	for d := range kvDelims {
 		if !searched[d] {
 			bad = append(bad, fmt.Sprintf("builder separates key and value with %q, which the parser never searches", d))
+		}
+	}
+	for d := range ownDelims {
+		if !kvDelims[d] {
+			bad = append(bad, fmt.Sprintf("a value beginning with %q is written without a delimiter, but the delimiter the builder writes otherwise is %v", d, keysOf(kvDelims)))
 		}
 	}
 	for d := range msgDelims {
